@@ -23,9 +23,18 @@ type c03File struct {
 	Docs    []any  `json:"docs,omitempty"`
 	LinkTo  string `json:"link_to,omitempty"` // file name (with ext) this symlink points to
 	AbsLink bool   `json:"abs_link,omitempty"`
+	// Dir places the file in a sibling directory Dir/ of the layer directory (links then point to
+	// ../LinkTo). Such a directory is never searched for layers: a link's parents come from the
+	// directory and name of its target.
+	Dir string `json:"dir,omitempty"`
 }
 
-func (f c03File) file() string { return f.Name + "." + f.Ext }
+func (f c03File) file() string {
+	if f.Dir != "" {
+		return f.Dir + "/" + f.Name + "." + f.Ext
+	}
+	return f.Name + "." + f.Ext
+}
 
 type c03Layout struct {
 	Files  []c03File `json:"files"`
@@ -58,6 +67,20 @@ func c03Chain(names ...string) c03Layout {
 		l.Files = append(l.Files, c03File{Name: n, Ext: "yaml", Docs: []any{c03Doc(n)}})
 	}
 	l.Args = []string{names[len(names)-1] + ".yaml"}
+	return l
+}
+
+// c03Wild: an entry file whose $parent is a wildcard over three part layers (and a plain layer q):
+// the parts are applied in the order of their file names, whatever their extensions.
+func c03Wild(parent any) c03Layout {
+	l := c03Layout{Note: "wildcard " + core.Canon(parent)}
+	for _, n := range []string{"p-a", "p-b", "p-c", "q"} {
+		l.Files = append(l.Files, c03File{Name: n, Ext: "yaml", Docs: []any{c03Doc(n)}})
+	}
+	top := c03Doc("top")
+	top["$parent"] = parent
+	l.Files = append(l.Files, c03File{Name: "top", Ext: "yaml", Docs: []any{top}})
+	l.Args = []string{"top.yaml"}
 	return l
 }
 
@@ -189,6 +212,12 @@ func (m *c03Model) parents(inst *c03Inst) ([]string, error) {
 		return nil, nil
 	}
 	if len(names) > 0 {
+		if strings.Contains(inst.path, "/") {
+			// a $parent directive read through a link in another directory: the statement fixes
+			// only the filename rule for links ("inherits from its target's name"), not which
+			// directory a directive's relative names are looked up in
+			return nil, errC03Unspec
+		}
 		var out []string
 		dupCheck := map[string]bool{}
 		for _, s := range names {
@@ -368,12 +397,14 @@ func c03Baselines() []c03Layout {
 		extra(c03Chain("a", "a.b", "a.b.c"), "a.c", "q", "q.r"),
 		extra(c03Chain("a", "a.b", "a.b.c", "a.b.c.d"), "q"),
 		extra(c03Chain("q", "q.r"), "a", "a.b"),
+		c03Wild("p-*"),
+		c03Wild([]any{"p-*", "q"}),
 	}
 }
 
 func (l *c03Layout) find(name string) *c03File {
 	for i := range l.Files {
-		if l.Files[i].Name == name {
+		if l.Files[i].Name == name && l.Files[i].Dir == "" {
 			return &l.Files[i]
 		}
 	}
@@ -402,7 +433,7 @@ func c03Deviations(l c03Layout) []c03Layout {
 		}
 	}
 	for i, f := range l.Files {
-		if f.LinkTo != "" {
+		if f.LinkTo != "" || f.Dir != "" {
 			continue
 		}
 		// change one extension
@@ -481,6 +512,32 @@ func c03Deviations(l c03Layout) []c03Layout {
 			}
 		}
 	}
+	// a link in another directory that keeps its target's file name, next to a decoy with the name of
+	// the target's parent layer: the link inherits from where and what it points to
+	for _, f := range l.Files {
+		if f.LinkTo != "" || f.Dir != "" || f.file() != entry {
+			continue
+		}
+		haveDir := false
+		for _, g := range l.Files {
+			if g.Dir != "" {
+				haveDir = true
+			}
+		}
+		if haveDir {
+			continue
+		}
+		for _, abs := range []bool{false} {
+			n := l.clone()
+			n.Files = append(n.Files, c03File{Name: f.Name, Ext: f.Ext, LinkTo: f.file(), Dir: "envs", AbsLink: abs})
+			if k := strings.LastIndex(f.Name, "."); k > 0 {
+				decoy := f.Name[:k]
+				n.Files = append(n.Files, c03File{Name: decoy, Ext: "yaml", Dir: "envs", Docs: []any{map[string]any{"order": []any{"DECOY"}, "decoy": true}}})
+			}
+			n.Args = []string{"envs/" + f.Name + "." + f.Ext}
+			add(n, "same-name symlink to "+f.file()+" from a sibling directory as entry")
+		}
+	}
 	// invoked from another directory: parents are looked up next to the file, not in the working directory
 	if l.Subdir == "" {
 		for _, sd := range []string{"d", "v1.2.x"} {
@@ -548,10 +605,10 @@ func c03Layouts(depth int, baselines []c03Layout) []c03Layout {
 		seen := map[string]bool{}
 		ok := true
 		for _, f := range l.Files {
-			if seen[f.Name] {
+			if seen[f.Dir+"/"+f.Name] {
 				ok = false
 			}
-			seen[f.Name] = true
+			seen[f.Dir+"/"+f.Name] = true
 		}
 		if ok {
 			out = append(out, l)
@@ -569,8 +626,16 @@ func c03Materialise(dir string, l c03Layout) error {
 	}
 	for _, f := range l.Files {
 		p := filepath.Join(dir, f.file())
+		if f.Dir != "" {
+			if err := os.MkdirAll(filepath.Join(dir, f.Dir), 0o755); err != nil {
+				return err
+			}
+		}
 		if f.LinkTo != "" {
 			t := f.LinkTo
+			if f.Dir != "" {
+				t = "../" + f.LinkTo
+			}
 			if f.AbsLink {
 				t = filepath.Join(dir, f.LinkTo)
 			}
@@ -582,7 +647,11 @@ func c03Materialise(dir string, l c03Layout) error {
 		if f.Ext == "toml" && hasNull(f.Docs) {
 			return fmt.Errorf("TOML cannot express null")
 		}
-		if err := writeDoc(dir, f.file(), f.Ext, f.Docs...); err != nil {
+		wd, wn := dir, f.file()
+		if f.Dir != "" {
+			wd, wn = filepath.Join(dir, f.Dir), f.Name+"."+f.Ext
+		}
+		if err := writeDoc(wd, wn, f.Ext, f.Docs...); err != nil {
 			return err
 		}
 	}
@@ -668,8 +737,8 @@ func buildC03(tier string) *core.Plan {
 		Run:  func(c *core.Ctx, i int64) { c03Run(c, layouts[i]) }}
 	return &core.Plan{
 		Spaces: []core.Space{sp},
-		Rule: "5 baseline directory layouts (filename chains of depth 1-4 with sibling layers) and every layout within <= depth deviations: one file's extension changed (6 formats), one layer removed, 16 $parent values in document 0 or 1 of any file, false+string, " +
-			"a filename link re-expressed by $parent on a renamed file, relative/absolute/chained/dotted symlinks as entry, -P, virtual or unsupported extension on the command line, a second input before or after; each run through the real bkl CLI",
+		Rule: "7 baseline directory layouts (filename chains of depth 1-4 with sibling layers; an entry whose $parent is a wildcard over three part layers, alone and in a list) and every layout within <= depth deviations: one file's extension changed (6 formats), one layer removed, 16 $parent values in document 0 or 1 of any file, false+string, " +
+			"a filename link re-expressed by $parent on a renamed file, relative/absolute/chained/dotted symlinks as entry, a same-name symlink in a sibling directory (next to a decoy parent layer) as entry, -P, virtual or unsupported extension on the command line, a second input before or after; each run through the real bkl CLI",
 		Assumptions: []string{"refResolve + refStream + refMerge give the ordered layer list and the expected documents (each layer appends its name to `order`, so application order is visible); $parent values of other types (numbers, maps) are not judged",
 			"every layer name is provided by exactly one file; output files are never placed next to inputs"},
 		Bounds: map[string]any{"deviations": depth, "layouts": len(layouts)},
